@@ -209,8 +209,8 @@ FlagSemantics(cfg, orc, argv, st) ==
   Ok(st) => \A o \in 1..NOpts(cfg) :
      LET bare == \A k \in 1..Len(argv) : \A j \in 1..Len(st.roles[k].ps) :
                     st.roles[k].ps[j] = o => ~Split(argv[k], cfg.mode).pairs[j].has
-         nocc == Cardinality({<<k, j>> \in (1..Len(argv)) \X (1..Len(argv) + 8) :
-                    j <= Len(st.roles[k].ps) /\ st.roles[k].ps[j] = o})
+         nocc == Cardinality(UNION {{<<k, j>> : j \in {jj \in 1..Len(st.roles[k].ps) : st.roles[k].ps[jj] = o}} :
+                                      k \in 1..Len(argv)})
      IN /\ (Opt(cfg, o).kind = "bool" /\ bare /\ nocc > 0) => st.store[o] = ~Opt(cfg, o).defb
         /\ (Opt(cfg, o).kind = "incr") => st.store[o] = Opt(cfg, o).defi + nocc
 
